@@ -267,13 +267,24 @@ def run_workload(mod, steps):
                 if live:
                     import gc
                     g = live.pop(s[1] % len(live))
-                    fr = getattr(g, "gi_frame", None)
-                    tok = fr.f_locals.get("_t") if fr is not None else None
-                    del fr
+                    # the generator and whatever it is delegating to (`yield from`): all of them are closed, innermost first
+                    toks, x = [], g
+                    while x is not None:
+                        fr = getattr(x, "gi_frame", None)
+                        toks.append(fr.f_locals.get("_t") if fr is not None else None)
+                        x = getattr(x, "gi_yieldfrom", None)
+                    fr = x = None
+                    # the ground truth is told when the generator really goes (its frame is unwound by the GeneratorExit just then):
+                    # normally at the `del` below, later if something else still refers to it
+                    import weakref
+
+                    def gone(toks=tuple(toks), rec=_r.REC):
+                        for tok in reversed(toks):
+                            if tok is not None and rec is not None:
+                                rec.closed(tok)
+                    weakref.finalize(g, gone)
                     del g
                     gc.collect()
-                    if tok is not None and _r.REC is not None:
-                        _r.REC.closed(tok)
                     out.append(("ok", "abandoned"))
                 else:
                     out.append(("ok", "nothing live"))
